@@ -51,7 +51,7 @@ def cases(draw):
         st.tuples(st.just("reopen")),
     ).map(list), min_size=1, max_size=8))
     return {"hsalt": draw(st.integers(0, 15)), "observer": draw(st.booleans()), "fmt": draw(st.sampled_from(["sdmf", "mdmf", "mdmf"])), "k": k, "n": n, "seg": seg, "size0": draw(length), "ops": ops,
-            "sched": draw(st.lists(st.integers(0, 9), max_size=draw(st.sampled_from([0, 40, 300])))), "threads": draw(st.sampled_from(["sync", "async", "async"]))}
+            "sched": draw(st.lists(st.integers(0, 9), max_size=draw(st.sampled_from([0, 40, 300])))), "threads": draw(st.sampled_from(["sync", "async", "async", "held"]))}
 
 
 def run_shard(spec, ctx):
@@ -79,7 +79,7 @@ def run_case(case, ctx):
     failed_core = []
     # CPU-bound steps (hashing, en/decryption, zfec) handed to defer_to_thread: synchronous (the repository's test switch) or, as in
     # production, answered in a later reactor turn so that other work interleaves
-    boot.set_thread_mode(case.get("threads") == "async")
+    boot.set_thread_mode(case.get("threads") or "sync")
     try:
         model = bytearray(pbytes(77, rlen(case["size0"], 0, 0, seg)))
         r = mutfile.create(g, g.c0, fmt, model)
